@@ -39,6 +39,7 @@ var (
 	mounts   = flag.String("mount", "", "comma separated virtual=real directory pairs: repo-relative virtual dir = verif-relative real dir")
 	verbose  = flag.Bool("v", false, "verbose")
 	noGo     = flag.String("nogo", "", "comma separated package paths in which go statements are left alone")
+	tickPkgs = flag.String("tickpkgs", "", "root-module packages that only get loop budgets (simrt.Tick in every loop), no scheduling points")
 )
 
 // Fields whose every access becomes a scheduling point: non-atomic data that the
@@ -90,7 +91,7 @@ func main() {
 			noGoSet[p] = true
 		}
 	}
-	process := func(dir string, patterns []string) {
+	process := func(dir string, patterns []string, ticksOnly bool) {
 		if len(patterns) == 0 {
 			return
 		}
@@ -116,7 +117,7 @@ func main() {
 				if !strings.HasPrefix(name, *repo+"/") {
 					continue
 				}
-				r := &rewriter{fset: p.Fset, info: p.TypesInfo, pkg: p.Types, file: f, fname: name, goStmts: !noGoSet[p.PkgPath]}
+				r := &rewriter{fset: p.Fset, info: p.TypesInfo, pkg: p.Types, file: f, fname: name, goStmts: !noGoSet[p.PkgPath], ticksOnly: ticksOnly}
 				if !r.rewrite() {
 					continue
 				}
@@ -134,8 +135,9 @@ func main() {
 			}
 		}
 	}
-	process(*repo, splitList(*rootPkgs))
-	process(filepath.Join(*repo, "godev"), splitList(*devPkgs))
+	process(*repo, splitList(*rootPkgs), false)
+	process(*repo, splitList(*tickPkgs), true)
+	process(filepath.Join(*repo, "godev"), splitList(*devPkgs), false)
 
 	// Mount verif directories into the repository's tree.
 	for _, m := range splitList(*mounts) {
@@ -192,16 +194,17 @@ func die(err error) {
 }
 
 type rewriter struct {
-	fset    *token.FileSet
-	info    *types.Info
-	pkg     *types.Package
-	file    *ast.File
-	fname   string
-	goStmts bool
-	changed bool
-	nsym    int
-	lhs     map[ast.Expr]bool
-	addrOf  map[ast.Expr]bool
+	fset      *token.FileSet
+	info      *types.Info
+	pkg       *types.Package
+	file      *ast.File
+	fname     string
+	goStmts   bool
+	ticksOnly bool
+	changed   bool
+	nsym      int
+	lhs       map[ast.Expr]bool
+	addrOf    map[ast.Expr]bool
 }
 
 func (r *rewriter) sym(base string) string {
@@ -274,6 +277,15 @@ func (r *rewriter) rewrite() bool {
 		return true
 	}
 	post := func(c *astutil.Cursor) bool {
+		if r.ticksOnly {
+			switch n := c.Node().(type) {
+			case *ast.ForStmt:
+				r.addTick(n.Body, n)
+			case *ast.RangeStmt:
+				r.addTick(n.Body, n)
+			}
+			return true
+		}
 		switch n := c.Node().(type) {
 		case *ast.CallExpr:
 			if nn := r.rewriteCall(n); nn != nil {
